@@ -76,6 +76,26 @@ theorem isclose_lat_eq (D M : Nat) (hD : 0 < D) (hM : 0 < M) (tol : Rat) (ht : 0
   unfold Dict.getD at l1 l2 b1 b2 ⊢
   exact coefClose_lat_eq D M hD hM tol ht h1 _ _ l1 l2 b1 b2 h
 
+/-! ### `hermitian_conjugated(QuadOperator)` -/
+
+theorem wf_foldl_set (f : Term × GQ → Term) (g : Term × GQ → GQ) (l : Op) :
+    ∀ init : Op, Dict.WF init → Dict.WF (l.foldl (fun acc x => Dict.set acc (f x) (g x)) init) := by
+  induction l with
+  | nil => intro init h; exact h
+  | cons y r ih => intro init h; rw [List.foldl_cons]; exact ih _ (Proofs.C03.wf_set _ _ _ h)
+
+theorem wf_hcQuad (a : Op) : Dict.WF (hcQuad a) := by
+  unfold hcQuad
+  exact wf_foldl_set (fun x => sortF x.1.reverse) (fun x => x.2.conj) a [] (by simp [Dict.WF, Dict.keys])
+
+theorem hcQuad_lat (D : Nat) (a : Op) (la : ∀ e ∈ a, Lat D e.2) : ∀ e ∈ hcQuad a, Lat D e.2 := by
+  intro e he
+  unfold hcQuad at he
+  rcases mem_foldl_set (fun x => sortF x.1.reverse) (fun x => x.2.conj) a [] e he with h | ⟨x, hx, rfl⟩
+  · simp at h
+  · obtain ⟨m, n, h1', h2'⟩ := la x hx
+    exact ⟨m, -n, by simp [GQ.conj, h1'], by simp [GQ.conj, h2']; ring⟩
+
 /-- `tol·D·M ≤ 1`, `M ≥ 1` ⟹ `tol·D ≤ 1` -/
 theorem tolD_le (D M : Nat) (hM : 0 < M) (tol : Rat) (ht : 0 < tol)
     (h1 : tol * ((D * M : Nat) : Rat) ≤ 1) : tol * D ≤ 1 := by
